@@ -80,6 +80,7 @@ def verify_function(interp, key, contract, max_paths=4000):
     import os as _os
     interp.deadline = t0 + float(_os.environ.get('PYVC_GEN_BUDGET', '400'))
     interp.spec_alias = {}
+    interp._renamed = {}
     cases = contract.get('cases') or [{}]
     for ci, case in enumerate(cases):
         restarts = 0
@@ -143,6 +144,9 @@ def build_params(interp, fi, contract, case):
             env[n] = selfobj
             continue
         ty = ptypes.get(n)
+        if ty is None:
+            back = {c: o for o, c in interp.renamed(fi).items()}
+            ty = ptypes.get(back.get(n))        # the parameter was renamed since the pinned tree
         if ty is None:
             raise Unsupported('contract of %s gives no type for parameter %s' % (fi.key, n))
         if callable(ty):
